@@ -37,6 +37,7 @@ type Profile struct {
 	Visits      bool
 	IllTyped    bool
 	NumberForms bool
+	LateCmds    bool // commands registered late on single runners (operation addcmd)
 	LongRuns    bool // longer node bodies, and half of the nodes end with a jump: runs use all their operations
 }
 
@@ -427,7 +428,20 @@ func (g *G) body(depth, n int) []*ast.Stmt {
 			if g.P.Ctl && r.Intn(2) == 0 {
 				name = "ctl"
 			}
+			if g.P.LateCmds && r.Intn(4) == 0 {
+				name = "late" // registered (if at all) by an addcmd operation, on one runner, while the run is under way
+			}
 			s := &ast.Stmt{Kind: "cmd", Cmd: []ast.CmdEl{{Word: name}}}
+			if r.Intn(12) == 0 {
+				// statement keywords of other Yarn Spinner versions: here they are commands nobody registered, and nothing else
+				name = r.Pick("detour", "detour", "return", "once", "endonce", "returning")
+				s.Cmd[0].Word = name
+				if name == "detour" {
+					s.Cmd = append(s.Cmd, ast.CmdEl{Word: g.titles[r.Intn(len(g.titles))]})
+					out = append(out, s)
+					break
+				}
+			}
 			if r.Intn(6) == 0 {
 				// computed command name
 				switch r.Intn(3) {
@@ -645,8 +659,16 @@ func RunCase(r *prng.R, p *Profile, id string) *sexp.S {
 			if r.Intn(8) == 0 {
 				ty = r.Pick("num", "bool", "str")
 			}
-			ops.Add(sexp.L(sexp.A("hset"), sexp.N(j), sexp.Str(v), value(r, ty)))
+			if r.Intn(4) == 0 {
+				// another string of exactly the same length
+				ops.Add(sexp.L(sexp.A("hrev"), sexp.N(j), sexp.Str(r.Pick("s", "s", "q", "t"))))
+			} else {
+				ops.Add(sexp.L(sexp.A("hset"), sexp.N(j), sexp.Str(v), value(r, ty)))
+			}
 		default:
+			if p.LateCmds && r.Intn(12) == 0 {
+				ops.Add(sexp.L(sexp.A("addcmd"), sexp.N(j), sexp.Str("late")))
+			}
 			if p.Ctl && r.Intn(4) == 0 {
 				ops.Add(sexp.L(sexp.A("complete"), sexp.N(j), sexp.A(r.Pick("ok", "ok", "err"))))
 			}
@@ -687,7 +709,7 @@ var Profiles = map[string]*Profile{
 	"rand": {Name: "rand", LongRuns: true, MaxNodes: 3, Weights: baseWeights, ExprDepth: 2, Faults: 0, Ops: 30, Random: true, RandomHeavy: true, Runners: 2},
 	// commands with controlled completion
 	"cmds": {Name: "cmds", LongRuns: true, MaxNodes: 2, Weights: map[string]int{"line": 6, "opts": 1, "if": 1, "set": 2, "declare": 0, "jump": 1, "cmd": 8, "call": 1, "stop": 1},
-		ExprDepth: 1, Faults: 0, Ops: 36, Ctl: true, SnapOps: 1},
+		ExprDepth: 1, Faults: 0, Ops: 36, Ctl: true, SnapOps: 1, Runners: 2, LateCmds: true},
 	// jump graphs with tracked and untracked nodes; visit counters rendered in lines
 	"visits": {Name: "visits", LongRuns: true, MaxNodes: 4, Weights: map[string]int{"line": 6, "opts": 3, "if": 2, "set": 1, "declare": 0, "jump": 7, "cmd": 0, "call": 0, "stop": 1},
 		ExprDepth: 1, Faults: 1, Ops: 40, Untracked: true, SnapOps: 2, Runners: 2, Visits: true},
